@@ -120,6 +120,28 @@ def run_map(prop, seed, tier, replay):
                                                  "the harness's own base64/VLQ decoder and encoder (harness/py) are trusted"]}
 
 
+def run_session(prop, seed, tier, replay):
+    import session_pipeline as sess
+    res = sess.run(seed, tier)
+    vs = res["verdicts"].get(prop, [])
+    st = res["stats"]
+    samples = []
+    for rid, v, d in vs[:3]:
+        c = res["cases"][rid]
+        samples.append({"instance": c["inst"], "file": c["file"], "code_class": c["codeclass"], "verdict": v})
+    cov = {"states": st["tlc_distinct"], "transitions": st["tlc_states"], "traces_validated_against_impl": st["histories"],
+           "evaluations": st["calls"], "samples": samples, "histories_enumerated_by_tlc": st["enumerated"],
+           "rule": "Session.tla enumerates every history of <= 3 (quick) / 4 (thorough) calls over 2 rewriter instances (same "
+                   "source names, different hook names; one with a random prefix) x 2 files x 5 code classes (modified, not "
+                   "modified, syntax error, refused, modified with external map); each is replayed in a long-lived native "
+                   "process and every call's digest (content, metrics, literal set, outcome) is compared by TraceSession.tla "
+                   "with the same single call in a fresh process and with earlier identical calls; plus 50-call random "
+                   "histories; non-trivial = a call whose (configuration, code, file) was already seen in that process",
+           "exhaustive": True}
+    return {"verdicts": vs, "cases": res["cases"], "level": "model_checking", "coverage": cov,
+            "assumptions": COMMON_ASSUMPTIONS + ["instances are native Config values in one process (the wasm Rewriter object holds exactly that)"]}
+
+
 def merge(a, b, pa, pb):
     """both halves of a property must hold: verdict lists are concatenated (record ids prefixed)"""
     cases = {pa + k: v for k, v in a["cases"].items()}
@@ -143,6 +165,8 @@ def run_property(prop, seed, tier, replay=None):
         if prop in DYN_PROPS and (half == "dyn" or prop not in STATIC_PROPS):
             return run_dynamic(prop, seed, tier, replay)
         return run_static(prop, seed, tier, replay)
+    if prop == "C16":
+        return run_session(prop, seed, tier, None)
     if prop == "C13":
         return merge(run_static(prop, seed, tier, None), run_map(prop, seed, tier, None), "static:", "map:")
     if prop in MAP_PROPS:
